@@ -7,7 +7,11 @@ MC      spec/Server.tla checked on itself (MC_Server_*.cfg): tcp 2 conns x 2 req
         nothing to serve on / a call that cannot succeed -> error, started stays FALSE, lock free, a following
         Shutdown is refused, a corrected start serves: FailedStartLeavesStopped); safety as invariants and action
         properties (VIEW hides the action label), liveness (ShutdownTerminates, ServeTerminates, WorkersEnd,
-        LockReleased) under weak fairness without VIEW or constraint.  A failure here is a spec bug: exit 2.
+        LockReleased) under weak fairness without VIEW or constraint; time / time_pc / time_live (+ time_pc_live,
+        thorough): time as part of the environment -- DeadlinesMayFire: TFire(c) / TFirePC, a read deadline in the
+        future comes, the read fails with a timeout, an idle connection is closed, the packet loop goes round -- and
+        callers PlainShut that use Shutdown(), the entry point without a context: PlainShutdownWaits (nothing but
+        the drain releases it).  A failure here is a spec bug: exit 2.
 BROKEN  every property is run against a deliberately broken variant of the action it guards (CONSTANT Bug) and
         must FAIL; a broken variant that passes is exit 2 (the property would be vacuous).
 RESTART MC_Server_restart (a second start while a shutdown is in progress) is EXPECTED to violate GracefulReturn,
@@ -33,7 +37,18 @@ TV      un-gated seeded scenarios modelled on server_test.go (N in-flight querie
         unusable address or TLS without certificates -- then a Shutdown that must be refused and a corrected start) on fakenet TCP and
         PacketConn and on a real UDP loopback socket, normal and -race build; events are numbered inside the critical
         section that produced them; Trace_Server accepts or rejects each run; goroutine census (stacks filtered on
-        dns.(*Server)) and len(srv.conns) after completion.
+        dns.(*Server)) and len(srv.conns) after completion.  Half of the shutdown calls whose ctx does not have to
+        expire go through Shutdown(), the entry point without a context (event shutdown.call v=1; the gated replays
+        do the same for every other caller whose ctx never expires in the plan).
+TIME    `server patience`: handlers are held by the harness across a plain Shutdown() for longer than every duration
+        the server knows -- variant configured: ReadTimeout = WriteTimeout = IdleTimeout() = 80..120 ms, held 12 x
+        that, in every third run the requests arrive only after the server idled for 2.5 x that (read deadlines come:
+        an idle connection is closed, the packet loop goes round); variant defaults: nothing configured (the
+        library's 2 s / 8 s), held 9.5 s -- on fakenet TCP and PacketConn and a real UDP socket, normal and -race
+        build.  The harness asserts nothing: the events (with time.elapse = how long it waited) are judged by
+        Trace_Server with DeadlinesMayFire = TRUE (Trace_Server_<mode>_time.cfg).  A Shutdown() that comes back
+        before the drain, or with a context error nobody asked for, has no step.  Load only makes the harness wait
+        longer.  Not covered: a bound that is a literal larger than 9.5 s.
 
 A VIOLATION is only: Trace_Server rejecting an observed trace (server/trace-reject:<event>), a property violated on
 every explanation of an observed trace (server/trace-inv:<property>), a projection mismatch at quiescence
@@ -57,6 +72,11 @@ Mutants (checks/mutants/C13/*.diff; `cp -r /repo /tmp/x && git -C /tmp/x apply <
                                   fields: spare PacketConn on the tcp server, spare Listener on the packet server), observed deadlock
                                   server/hang:ShutdownContext; REUSE server/hang:ShutdownContext-reused-<kind>-after-<first> (udp->tcp, ...);
                                   model: Bug="switch_close" fails ShutdownTerminates on MC_Server_both_live
+  seeded C13-18 = shutdown-gives-up-after-idle-timeout (Shutdown() = ShutdownContext with a timer of IdleTimeout() / 8 s)
+                                  TIME server/trace-reject:shutdown.returned:ctx (tcp) | server/trace-reject:pc.close (pc: the packet conn is
+                                  closed under the held handlers) | server/trace-reject:shutdown.returned:ctx (udp), variant configured after
+                                  ~0.1 s, variant defaults after 8 s; model: Bug="plain_gives_up" fails PlainShutdownWaits on MC_Server_time(_pc)
+  shutdown-bounded-by-read-timeout (Shutdown() waits 2 x getReadTimeout())   TIME, the same keys (defaults: after 4 s)
   plain-unlock [t]                server/crash:fatal-error-sync-Unlock-of-unlocked-RWMutex (every stage that starts a server)
   wgadd-after-go                  NOT caught: nothing observable separates `go` from `wg.Add` (no hook can sit between the
                                   two statements without rewriting them); only a negative-counter panic by scheduling luck
@@ -67,8 +87,9 @@ import vp
 
 SPEC = os.path.join(vp.VERIF, "spec")
 
-MC_QUICK = ["tcp", "pc", "twice", "reseq", "fail", "fail_pc", "both", "both_pc", "hijack", "tcp_live", "pc_live", "fail_live", "both_live"]
-MC_THOROUGH = MC_QUICK + ["tcp3"]
+MC_QUICK = ["tcp", "pc", "twice", "reseq", "fail", "fail_pc", "both", "both_pc", "hijack", "tcp_live", "pc_live", "fail_live", "both_live",
+            "time", "time_pc", "time_live"]
+MC_THOROUGH = MC_QUICK + ["tcp3", "time_pc_live"]
 
 # (base cfg, Bug, INVARIANT|PROPERTY, property that must fail)
 BROKEN = [
@@ -91,7 +112,10 @@ BROKEN = [
     ("fail_live", "started_early", "PROPERTY", "ShutdownTerminates"),
     ("both_live", "switch_close", "PROPERTY", "ShutdownTerminates"),
     ("hijack", "hijack_keeps_conn", "INVARIANT", "NothingLeft"),
+    ("time", "plain_gives_up", "INVARIANT", "PlainShutdownWaits"),
+    ("time_pc", "plain_gives_up", "INVARIANT", "PlainShutdownWaits"),
 ]
+BROKEN_THOROUGH_ONLY = {("time_pc", "plain_gives_up")}
 
 RESTART_QUICK = [("restart", "INVARIANT", "GracefulReturn"), ("restart", "INVARIANT", "ServeReturnsNil"),
                  ("restart", "INVARIANT", "NoCrash"), ("restart_live", "PROPERTY", "ShutdownTerminates")]
@@ -120,6 +144,7 @@ QUICK = {
     "tcp_live": {"ClientMayClose": "FALSE", "HandlerMayClose": "FALSE", "NConns": 1},
     "fail_live": {"NConns": 0},
     "restart_live": {"NConns": 0},
+    "time": {"NConns": 1},
 }
 
 
@@ -158,8 +183,9 @@ def broken(ctx):
         if not re.search(r"(Invariant|property) %s (is|was) violated" % prop, r.out):
             raise vp.Infra("broken variant Bug=%s of %s does NOT violate %s: the property is vacuous there\n%s"
                            % (bug, base, prop, vp._tail_err(r.out)))
-    vp.parallel([lambda i=i, b=b: one(i, b) for i, b in enumerate(BROKEN)], maxpar=6)
-    ctx.notes["broken_variants_failed_as_required"] = len(BROKEN)
+    todo = [(i, b) for i, b in enumerate(BROKEN) if not (ctx.quick and (b[0], b[1]) in BROKEN_THOROUGH_ONLY)]
+    vp.parallel([lambda i=i, b=b: one(i, b) for i, b in todo], maxpar=6)
+    ctx.notes["broken_variants_failed_as_required"] = len(todo)
 
 
 # ---------------------------------------------------------------------- harness runs
@@ -299,6 +325,36 @@ def reuse(ctx, binp, tag):
     if s is not None:
         ctx.notes["reuse_generations"] = ctx.notes.get("reuse_generations", 0) + (s.get("notes") or {}).get("reuse_generations", 0)
         absorb(ctx, s, rerun)
+
+
+def patience(ctx, binp, racebin):
+    """Time as part of the environment: handlers held across a plain Shutdown() for longer than every timeout the
+    server is configured with (variant configured) / defaults to (variant defaults); read deadlines do come in these
+    runs.  Judged by Trace_Server with DeadlinesMayFire = TRUE (Trace_Server_<mode>_time.cfg)."""
+    if ctx.quick:
+        jobs = [(m, "configured", 3, b) for m in ("tcp", "pc", "udp") for b in ("plain", "race")]
+        jobs += [(m, "defaults", 1, "plain") for m in ("tcp", "pc", "udp")]
+    else:
+        jobs = [(m, "configured", 12, b) for m in ("tcp", "pc", "udp") for b in ("plain", "race")]
+        jobs += [(m, "defaults", 3, "plain") for m in ("tcp", "pc", "udp")] + [(m, "defaults", 1, "race") for m in ("tcp", "pc", "udp")]
+
+    later = []
+
+    def one(mode, variant, n, tag):
+        out = os.path.join(ctx.out, "pat-%s-%s-%s.ndjson" % (tag, mode, variant))
+        rerun = {"kind": "patience", "mode": mode, "variant": variant, "nruns": n, "seed": ctx.seed, "race": tag == "race"}
+        s = run_server(ctx, racebin if tag == "race" else binp, ["patience", mode, out, variant, str(n)],
+                       env={"VERIF_SEED": str(ctx.seed)}, timeout=900, case=rerun)
+        if s is not None:
+            with vp._lock:
+                ctx.notes["patience_handlers_held"] = ctx.notes.get("patience_handlers_held", 0) + (s.get("notes") or {}).get("patience_handlers_held", 0)
+            absorb(ctx, s, rerun)
+        if os.path.exists(out):
+            with vp._lock:
+                later.append((mode, (out, "patience %s %s seed %d (%s)" % (mode, variant, ctx.seed, tag), rerun)))
+    vp.parallel([lambda j=j: one(*j) for j in jobs], maxpar=12)
+    # one TLC run per mode; the files are looked at one by one only when something is rejected or violated
+    vp.parallel([lambda m=m: tv_many(ctx, m + "_time", [it for mm, it in later if mm == m], "patience") for m in ("tcp", "pc", "udp")], maxpar=3)
 
 
 def tv_many(ctx, mode, items, name):
@@ -522,10 +578,13 @@ def run(ctx):
     for mode in ("tcp", "pc", "udp"):
         stages.append(timed(ctx, "rec-" + mode, lambda mode=mode: rec(mode)))
     stages += [timed(ctx, "reuse", lambda: reuse(ctx, binp(), "plain")), timed(ctx, "reuse-race", lambda: reuse(ctx, racebin(), "race"))]
-    vp.parallel(stages, maxpar=12)
+    stages.append(timed(ctx, "patience", lambda: patience(ctx, binp(), racebin())))
+    vp.parallel(stages, maxpar=13)
     binp = binp()
     ctx.assumptions += [
-        "DEV1: read deadlines in the future (ReadTimeout / IdleTimeout, one hour in the harness) do not fire during a run",
+        "DEV1: read deadlines in the future (ReadTimeout / IdleTimeout, one hour in the harness) do not fire during a run, except in the "
+        "`patience` runs (short / default timeouts), which are judged with DeadlinesMayFire = TRUE",
+        "TIME: a bound on Shutdown()'s wait is seen when it is derived from a configured timeout or is at most 9.5 s",
         "DEV2: MaxTCPQueries, Hijack, MsgAcceptFunc reject/ignore, short packets, DecorateReader/Writer, TLS handshakes are not modelled "
         "(a TLS listener is a net.Listener to server.go)",
         "DEV3: srv.Listener is only re-assigned by the caller while the server is not started and no call is in its critical section",
@@ -570,6 +629,19 @@ def replay(ctx, path):
         if s is not None:
             absorb(ctx, s, rerun)
         bad = any(c["key"] == rp["key"] for c in ctx.cands)
+    elif rerun.get("kind") == "patience":                      # handlers held across Shutdown(): same seed, up to three attempts
+        for k in range(3):
+            sub = _sub(ctx, "try%d" % k)
+            out = os.path.join(sub.out, "pat.ndjson")
+            s = run_server(sub, binp, ["patience", rerun["mode"], out, rerun["variant"], str(rerun["nruns"])],
+                           env={"VERIF_SEED": str(rerun["seed"])}, timeout=900, case=rerun)
+            if s is not None:
+                absorb(sub, s, rerun)
+            if os.path.exists(out):
+                tv(sub, rerun["mode"] + "_time", out, "replay", rerun)
+            if any(c["key"] == rp["key"] for c in sub.cands):
+                bad = True
+                break
     elif rerun.get("kind") == "record":                        # un-gated: same seed, up to three attempts
         for k in range(3):
             sub = _sub(ctx, "try%d" % k)
